@@ -388,7 +388,7 @@ def pairs_part(pid, tier, verdict, cov, te):
         pid, tier, fam_, ['ParFresh', 'ParFailPropagates', 'ParNoTmpLeft', 'ScriptMutex', 'HoldThroughRecord',
                           'ScriptUnderLock', 'NotHung', 'NoPanic', 'Fresh'], [],
         None, (3, 4), sample_n=None if tier == 'thorough' else 16, jitter=True, repeat=6 if tier == 'thorough' else 2,
-        min_cmds=1, verdict=verdict, subdir='pairs', required_actions=['InitRunA', 'EndPar'],
+        min_cmds=1, verdict=verdict, subdir='pairs', required_actions=['InitRunA', 'EndPar'], sched=1,
         note='two invocations at once inside RedoSys')
     te += te2
     cov['pair_states'] = cov2['states']
